@@ -388,8 +388,12 @@ def s_check(job):
         anch = unhx(parts[1]).decode("utf-8")
         pref = unhx(parts[2]).decode("utf-8")
         ref = globre.glob_re(ref_seq, ci)
-        r_anch = globre.regex_re(anch, ci, _T["dotall"])
-        r_pref = globre.regex_re(pref, ci, _T["dotall"])
+        # the real pattern is read with the case flag it was actually compiled with (reported by the driver), the reference with
+        # the case flag that was asked for
+        real_ci = (parts[4] == "1") if len(parts) > 4 else ci
+        out["real_ci"] = real_ci
+        r_anch = globre.regex_re(anch, real_ci, _T["dotall"])
+        r_pref = globre.regex_re(pref, real_ci, _T["dotall"])
     except globre.Unsupported as ex:
         out["status"] = "unsupported"
         out["detail"] = "%s (regex %r)" % (ex, parts[1])
@@ -414,7 +418,7 @@ def s_check(job):
 def selector_patterns(rep, drv, dotall):
     """relative --path / --exclude patterns are anchored at the base directory taken literally"""
     jobs0 = [(b, g, ci, kind) for b in BASES for g in SEL_GLOBS for ci in (False, True) for kind in ("S", "X")
-             if kind == "S" or (ci is False and g in SEL_GLOBS[:6])]
+             if kind == "S" or g in SEL_GLOBS[:6]]
     lines = ["%s %s %s %d" % (kind, hx(b), hx(g), 1 if ci else 0) for b, g, ci, kind in jobs0]
     res = drv.run(SEL_TEST, lines, "sel")
     if len(res) != len(jobs0):
@@ -443,22 +447,21 @@ def selector_patterns(rep, drv, dotall):
                 break
             w = r["witness"]
             inc, exc = (hx(r["glob"]), "-") if r["kind"] == "S" else ("-", hx(r["glob"]))
-            if r["ci"]:
-                continue
-            out = drv.run(SEL_TEST, ["SM %s %s %s - %s" % (hx(r["base"]), inc, exc, hx(w))], "selrp")
+            out = drv.run(SEL_TEST, ["%s %s %s %s - %s" % ("SMI" if r["ci"] else "SM", hx(r["base"]), inc, exc, hx(w))], "selrp")
             if not out or out[0] in ("ERR", "PANIC", "?"):
                 continue
             relative = not (r["glob"].startswith("/") or r["glob"].startswith("**"))
             b = r["base"] if r["base"].endswith("/") else r["base"] + "/"
-            rx = re.compile((re.escape(b) if relative else "") + _py_seq(globre.parse_glob(r["glob"]), False), re.S)
+            rx = re.compile((re.escape(b) if relative else "") + _py_seq(globre.parse_glob(r["glob"]), r["ci"]), re.S | (re.I if r["ci"] else 0))
             if r["which"] == "matches" and w.startswith("/") and "//" not in w and not w.endswith("/") and "\x00" not in w:
                 want = rx.fullmatch(w) is not None
                 if r["kind"] == "X":
                     want = not want
                 got = out[0][0] == "1"
                 if got != want:
-                    conf = (r, "real PathSelector(base %r).%s(%r).matches_full_path(%r) = %s, documented: %s (regex: %r)" % (
-                        r["base"], "include_paths" if r["kind"] == "S" else "exclude_paths", r["glob"], w, got, want, r.get("regex")))
+                    conf = (r, "real PathSelector(base %r).%s(%r%s).matches_full_path(%r) = %s, documented: %s (regex: %r, compiled case-insensitive: %s)" % (
+                        r["base"], "include_paths" if r["kind"] == "S" else "exclude_paths", r["glob"], " with --ignore-case" if r["ci"] else "", w, got, want,
+                        r.get("regex"), r.get("real_ci")))
                     break
         if conf:
             o.verdict = "violated"
